@@ -713,15 +713,16 @@ def _explore_serial(harness, roots, deadline, max_paths, blockers, reset, stop_a
 
 
 _POOL_ARGS: dict = {}
+_JOB_PATHS = 250          # a pool job gives back its unexplored prefixes after this many paths
 
 
-def _pool_job(prefix):
+def _pool_job(prefixes):
     a = _POOL_ARGS
-    st, left = _explore_serial(a["harness"], [prefix], a["deadline"], a["max_paths"],
+    st, left = _explore_serial(a["harness"], list(prefixes), a["deadline"], _JOB_PATHS,
                                a["blockers"], a["reset"], keep_samples=a["keep_samples"])
     if left:
-        st["exhausted"] = False
-    return st
+        st["exhausted"] = True      # not a budget overrun: the parent reschedules what is left
+    return st, left
 
 
 def explore(harness, *, timeout=120.0, max_paths=200000, workers=1, blockers=None, reset=None,
@@ -736,15 +737,36 @@ def explore(harness, *, timeout=120.0, max_paths=200000, workers=1, blockers=Non
             st["exhausted"] = False
     else:
         st, left = _explore_serial(harness, [[]], deadline, max_paths, blockers, reset,
-                                   stop_at_pending=workers * 16, keep_samples=keep_samples)
+                                   stop_at_pending=workers * 4, keep_samples=keep_samples)
         if left and st["exhausted"]:
-            _POOL_ARGS.update(harness=harness, deadline=deadline,
-                              max_paths=max_paths,
-                              blockers=blockers, reset=reset, keep_samples=max(1, keep_samples // 4))
+            _POOL_ARGS.update(harness=harness, deadline=deadline, blockers=blockers, reset=reset,
+                              keep_samples=max(1, keep_samples // 4))
             mp = multiprocessing.get_context("fork")
-            with mp.Pool(min(workers, len(left))) as pool:
-                for sub in pool.imap_unordered(_pool_job, left, 1):
-                    _merge_stats(st, sub)
+            queue = [[p] for p in left]
+            inflight = []
+            with mp.Pool(workers) as pool:
+                while queue or inflight:
+                    stop = (time.time() > deadline or st["paths"] + st["infeasible"] >= max_paths
+                            or sum(1 for c in st["cex"] if not c.get("listed")) >= 12
+                            or len(st["errors"]) >= 3)
+                    if stop:
+                        if queue:
+                            st["exhausted"] = False
+                        queue = []
+                    while queue and len(inflight) < workers * 2:
+                        inflight.append(pool.apply_async(_pool_job, (queue.pop(),)))
+                    done = [r for r in inflight if r.ready()]
+                    if not done:
+                        time.sleep(0.003)
+                        continue
+                    for r in done:
+                        inflight.remove(r)
+                        sub, rest = r.get()
+                        _merge_stats(st, sub)
+                        # split what a job gives back into a few jobs of their own
+                        k = max(1, len(rest) // 4)
+                        for i in range(0, len(rest), k):
+                            queue.append(rest[i:i + k])
         elif left:
             st["exhausted"] = False
     st["wall_s"] = time.time() - t0
